@@ -225,7 +225,18 @@ def scan_cases(payload):
         x = xn[tuple(sl)]
         carry = (carry * 3 + int(x.sum())) % 1000003
         ysn[tuple(sl)] = x * 2 + carry % 7
-      return {'carry_ok': int(cfin) == carry, 'ys_ok': bool((np.asarray(ys) == ysn).all()) and ys.shape == xn.shape}
+      # raw observations for the model (Model/ScanNd.v): per step of the nested loops the sum of the slice handed to the body and the
+      # offset the body added to it (taken from the real outputs), nested in the order of the scanned axes
+      yn = np.asarray(ys)
+      def nest(prefix, rest):
+        if not rest:
+          sl = [slice(None)] * xn.ndim
+          for a, i in zip(axis, prefix):
+            sl[a] = i
+          d = (yn[tuple(sl)] - 2 * xn[tuple(sl)]) if yn.shape == xn.shape else np.zeros(1)
+          return [int(xn[tuple(sl)].sum()), int(np.asarray(d).reshape(-1)[0]), bool((np.asarray(d) == np.asarray(d).reshape(-1)[0]).all())]
+        return [nest(prefix + [i], rest[1:]) for i in range(shape[rest[0]])]
+      return {'carry_ok': int(cfin) == carry, 'ys_ok': bool((np.asarray(ys) == ysn).all()) and ys.shape == xn.shape, '_raw': {'nest': nest([], list(axis)), 'cfin': int(cfin)}}
     out.append(common_safe(go))
   return out
 
